@@ -158,6 +158,16 @@ fn main() {
                 }
                 runs.push(run_seq(&c.u, &seq, Mode::Sync, Policy::Fifo, "sync-seq"));
                 runs.push(run_seq(&c.u, &single, Mode::YieldOnce, Policy::Fifo, "yield"));
+                // metadata obtained before a cancellation must not be requested again by the next solve
+                let np = count_polls(&c.u, &c.p, Mode::Sync, Policy::Fifo);
+                let ks: Vec<u32> = if np <= 10 { (0..np).collect() } else { (0..10).map(|_| r.below(np as u64) as u32).collect() };
+                for k in ks {
+                    runs.push(run_seq(&c.u, &[(c.p.clone(), vec![k]), (c.p.clone(), vec![])], Mode::Sync, Policy::Fifo, "sync-cancel-resolve"));
+                }
+                let np = count_polls(&c.u, &c.p, Mode::YieldOnce, Policy::Fifo).min(6);
+                for k in 0..np {
+                    runs.push(run_seq(&c.u, &[(c.p.clone(), vec![k]), (c.p.clone(), vec![])], Mode::YieldOnce, Policy::Fifo, "yield-cancel-resolve"));
+                }
             }
             "c10" => {
                 runs.push(run_seq(&c.u, &single, Mode::Sync, Policy::Fifo, "sync"));
